@@ -53,6 +53,8 @@ def universe(rnd):
     # one probe holding the SAME (interned) selector twice, spelled differently: two handlers on one
     # selector object, each of which delivers (and each of which must be removed at deactivation)
     specs.append(("multi-dup", [(["call", 1, ["b1", "v"], []], [], "v"), (["call", 1, ["b1", "v"], []], [], "v")]))
+    # a selector that names the same context variable twice (its capture tuple holds b1 twice)
+    specs.append(("imm", [(["call", 1, ["b1", "b1", "v"], []], [], "v")]))
     # a total probe whose subscriber raises while its record is being delivered (at the exit of
     # the outermost matched call): the exception must not disturb anything else
     specs.append(("total-raising", [(["call", rnd.randrange(NF), ["v"], []], None, None)]))
